@@ -566,7 +566,7 @@ impl<'a> Socket<'a> {
                 };
 
                 // Check timeout
-                if timeout < cx.now() {
+                if timeout <= cx.now() {
                     // DNS timeout
                     pq.timeout_at = Some(cx.now() + RETRANSMIT_TIMEOUT);
                     pq.retransmit_at = Instant::ZERO;
@@ -662,7 +662,13 @@ impl<'a> Socket<'a> {
             .iter()
             .flatten()
             .filter_map(|q| match &q.state {
-                State::Pending(pq) => Some(PollAt::Time(pq.retransmit_at)),
+                // Moving on to the next server (or failing the query) when the
+                // current one has timed out is work too, and it can be due before
+                // the next retransmission.
+                State::Pending(pq) => Some(PollAt::Time(match pq.timeout_at {
+                    Some(timeout_at) => pq.retransmit_at.min(timeout_at),
+                    None => pq.retransmit_at,
+                })),
                 State::Completed(_) => None,
                 State::Failure => None,
             })
